@@ -53,8 +53,14 @@ Init == /\ sz = [s \in Streams |-> <<>>]
         /\ sentb = [s \in Streams |-> 0] /\ recvb = [s \in Streams |-> 0] /\ parsed = [s \in Streams |-> 0]
         /\ nsvc = 0
 
-\* the application on the sending side of stream <<p, d>> queues a packet of n bytes
-Transmit(p, d, n) ==
+\* the application on the sending side of stream <<p, d>> queues a packet of n bytes.  how = "new": a fresh packet;
+\* how = "same": the very packet object it queued last on this stream, once more (what exchanging.Exchange does when
+\* it redoes a transmission: stack.transmit(self.tx)).  The model only knows the content, so both are one action: a packet
+\* handed to transmit() belongs to the caller and is the same packet afterwards
+Hows == {"new", "same"}
+Transmit(p, d, n, how) ==
+    /\ how \in Hows
+    /\ how = "same" => (Len(sz[<<p, d>>]) > 0 /\ n = sz[<<p, d>>][Len(sz[<<p, d>>])])
     /\ Len(sz[<<p, d>>]) < (IF d = "up" THEN MaxUp ELSE MaxDown)
     /\ sz' = [sz EXCEPT ![<<p, d>>] = Append(@, n)]
     /\ UNCHANGED <<sentb, recvb, parsed, nsvc>>
@@ -86,7 +92,7 @@ ServeServer(a, r, c) ==
     /\ nsvc' = nsvc + 1
     /\ UNCHANGED sz
 
-Next == \/ \E p \in Peers, d \in Dirs, n \in Sizes : Transmit(p, d, n)
+Next == \/ \E p \in Peers, d \in Dirs, n \in Sizes, how \in Hows : Transmit(p, d, n, how)
         \/ \E p \in Peers, a \in 0..MaxB, r \in 0..MaxB, c \in Chunks : ServeClient(p, a, r, c)
         \/ \E a \in [Peers -> 0..MaxB], r \in [Peers -> 0..MaxB], c \in Chunks : ServeServer(a, r, c)
 Spec == Init /\ [][Next]_vars
